@@ -259,6 +259,15 @@ class Broker(object):
             raise BrokerClose(403, "ACCESS_REFUSED - queue '%s' in vhost '/' in exclusive use" % queue)
         tag = consumer_tag or ("ctag%d.%d" % (ch.number, len(ch.consumers) + 1))
         c = ConsumerRec(tag, ch, queue, callback, ch.prefetch_next, bool(exclusive), arguments, auto_ack)
+        if q.msgs and not q.consumers:
+            # what already waits in the queue (a backlog, or deliveries requeued when the previous consumer's channel
+            # closed) reaches a new consumer over the same network as everything else: one hop of latency, FIFO kept
+            t = self.sim.now + self.sim.draw_latency("pub")
+            for m in q.msgs:
+                if m.available_at < t:
+                    m.available_at = t
+                else:
+                    t = m.available_at
         q.consumers.append(c)
         q.had_consumer = True
         ch.consumers[tag] = c
